@@ -311,6 +311,61 @@ func TestC01_WorkerBlocks(t *testing.T) {
 				return
 			}
 			agg = st
+			// "... and across blocks", on whatever chain is canonical: every few steps the node is
+			// taken through a reorganisation. A competing branch is built from the current tip's
+			// position, the node first follows branch A (blocks with Qi spends, among them spends of
+			// outputs created in the same block), is then switched to branch B; the ledger rebuilt
+			// from the now-canonical chain must again equal the database. The history continues on B.
+			if rapid.IntRange(0, 3).Draw(t, "reorgEpisode") == 0 {
+				B := a.Fork(a.Salt + 1000 + uint64(i))
+				forkLog := len(a.Log)
+				for k, dA := 0, rapid.IntRange(1, 2).Draw(t, "depthA"); k < dA; k++ {
+					if err := a.Adopt(); err != nil {
+						t.Fatalf("HARNESS: adopt A: %v", err)
+					}
+					a.QiTraffic(t)
+					var err error
+					if rapid.Bool().Draw(t, "chainedA") {
+						_, err = a.MineChained(t, a.DrawMineOpts(t, sim.Zone))
+					} else {
+						_, err = a.MineRandomOrder(t, sim.Zone)
+					}
+					if err != nil {
+						t.Fatalf("HARNESS: mine A: %v\n%s", err, strings.Join(a.Log, "\n"))
+					}
+				}
+				if err := a.Adopt(); err != nil {
+					t.Fatalf("HARNESS: adopt A tip: %v", err)
+				}
+				if fp, msg, _ := rebuildLedger(n); fp != "" {
+					stats.Violation(t, partSim, "C01/sim/"+fp, fmt.Sprintf("step %d, branch A: %s", i, msg), dump())
+					return
+				}
+				for k, dB := 0, rapid.IntRange(1, 3).Draw(t, "depthB"); k < dB; k++ {
+					if err := B.Adopt(); err != nil {
+						t.Fatalf("HARNESS: adopt B: %v", err)
+					}
+					if k > 0 || rapid.Bool().Draw(t, "trafficB") {
+						B.QiTraffic(t)
+					}
+					if _, err := B.MineRandomOrder(t, sim.Zone); err != nil {
+						t.Fatalf("HARNESS: mine B: %v\n%s", err, strings.Join(B.Log, "\n"))
+					}
+				}
+				if err := B.Adopt(); err != nil {
+					t.Fatalf("HARNESS: adopt B tip: %v", err)
+				}
+				own := append([]string{}, B.Log[forkLog:]...)
+				B.Log = append(append(append([]string{}, a.Log...), "-- reorganisation: the entries since the fork above are branch A; the node now switches to branch B:"), own...)
+				a = B
+				stats.Label(partSim, "reorg_episode")
+				fp, msg, st := rebuildLedger(n)
+				if fp != "" {
+					stats.Violation(t, partSim, "C01/sim/after-reorg/"+fp, fmt.Sprintf("step %d, after switching from branch A to branch B: %s", i, msg), dump())
+					return
+				}
+				agg = st
+			}
 		}
 		labels := []string{}
 		if agg.spendSameBlockOutput > 0 {
